@@ -20,7 +20,8 @@ enum Op {
     /// bare number
     Bare(u32),
     /// LIST / DELETE with a range form
-    List(Range, Option<usize>),
+    /// LIST with a range form; interrupt after the j-th listed line; typed behind `PRINT "AB";:` (cursor mid-line)
+    List(Range, Option<usize>, bool),
     Delete(Range),
     Tab(u32),
     Snap,
@@ -239,14 +240,17 @@ impl Case for C15Case {
                         }
                     }
                 }
-                Op::List(r, intr_after) => {
+                Op::List(r, intr_after, midline) => {
                     let mut io = LineIo::budget(5000);
                     // a listing of at most 20 lines needs a few dozen execute() calls
                     io.max_slices = 400;
                     if let Some(j) = intr_after {
                         io.intrs.push(When::AfterList(*j));
                     }
-                    let o = w.line(&format!("LIST{}", r.text()), &io);
+                    let o = w.line(&format!("{}LIST{}", if *midline { "PRINT \"AB\";:" } else { "" }, r.text()), &io);
+                    if *midline {
+                        w.stats.bump("c15.list_with_cursor_mid_line");
+                    }
                     let evs = &w.events[o.ev_start..o.ev_end];
                     let listed: Vec<String> = evs
                         .iter()
@@ -451,9 +455,9 @@ impl Case for C15Case {
                     ops[i] = Op::Put(*nn, 0, "END".to_string());
                     out.push(Box::new(C15Case { ops, ..self.clone() }));
                 }
-                Op::List(r, Some(_)) => {
+                Op::List(r, Some(_), m) => {
                     let mut ops = self.ops.clone();
-                    ops[i] = Op::List(r.clone(), None);
+                    ops[i] = Op::List(r.clone(), None, *m);
                     out.push(Box::new(C15Case { ops, ..self.clone() }));
                 }
                 _ => {}
@@ -475,8 +479,8 @@ impl Case for C15Case {
             .map(|op| match op {
                 Op::Put(n, sp, t) => Json::Str(format!("type {:?}", put_text(*n, *sp, t))),
                 Op::Bare(n) => Json::Str(format!("type {:?}", n.to_string())),
-                Op::List(r, None) => Json::Str(format!("type {:?}", format!("LIST{}", r.text()))),
-                Op::List(r, Some(j)) => Json::Str(format!("type {:?}, Ctrl-C after List event {}", format!("LIST{}", r.text()), j)),
+                Op::List(r, None, m) => Json::Str(format!("type {:?}", format!("{}LIST{}", if *m { "PRINT \"AB\";:" } else { "" }, r.text()))),
+                Op::List(r, Some(j), m) => Json::Str(format!("type {:?}, Ctrl-C after List event {}", format!("{}LIST{}", if *m { "PRINT \"AB\";:" } else { "" }, r.text()), j)),
                 Op::Delete(r) => Json::Str(format!("type {:?}", format!("DELETE{}", r.text()))),
                 Op::Tab(n) => Json::Str(format!("TAB completion lookup of {}", n)),
                 Op::Snap => Json::Str("take and hold a get_listing() snapshot".into()),
@@ -529,7 +533,7 @@ impl Property for C15 {
                 47..=66 => {
                     let r = range(rng, true);
                     let intr = if rng.pct(25) { Some(rng.below(4) as usize) } else { None };
-                    Op::List(r, intr)
+                    Op::List(r, intr, rng.pct(15))
                 }
                 67..=84 => Op::Delete(range(rng, true)),
                 85..=89 => Op::Tab(operand(rng)),
@@ -603,6 +607,7 @@ impl Property for C15 {
             "c15.new",
             "c15.load",
             "c15.program_list",
+            "c15.list_with_cursor_mid_line",
             "fault.program_list_interrupted",
         ]
     }
